@@ -48,7 +48,7 @@ pub fn candidates(prop: &str) -> Vec<Value> {
             }}}
         }
         "C04" => {
-            for g in ["G1", "G2"] { for s in schemes() { for kind in ["id_pk", "id_sig", "id_both", "zero_sign", "zero_pop", "id_pop", "id_pop_pk", "agg_id_pk_first", "agg_id_pk_last", "agg_id_sig", "multi_id_key", "zero_from_bytes"] {
+            for g in ["G1", "G2"] { for s in schemes() { for kind in ["id_pk", "id_sig", "id_both", "zero_sign", "zero_pop", "id_pop", "id_pop_pk", "agg_id_pk_first", "agg_id_pk_last", "agg_id_sig", "multi_id_key", "zero_from_bytes", "pok_id_commitment", "pok_id_response", "pok_id_key", "pok_zero_challenge"] {
                 v.push(json!({"call": "identity_inputs", "group": g, "scheme": scheme_name(s), "kind": kind}));
             }}}
         }
@@ -63,7 +63,7 @@ pub fn candidates(prop: &str) -> Vec<Value> {
             }}}}
         }
         "C07" => {
-            for g in ["G1", "G2"] { for s in schemes() { for n in [2usize, 3, 5] { for kind in ["honest", "missing_signer", "extra_signer", "other_msg", "sum_check", "single", "mixed_first", "mixed_later", "aug_first", "aug_later"] {
+            for g in ["G1", "G2"] { for s in schemes() { for n in [2usize, 3, 5] { for kind in ["honest", "missing_signer", "extra_signer", "other_msg", "sum_check", "repeated_signer", "single", "mixed_first", "mixed_later", "aug_first", "aug_later"] {
                 v.push(json!({"call": "multi", "group": g, "scheme": scheme_name(s), "n": n, "kind": kind}));
             }}}}
         }
@@ -82,12 +82,12 @@ pub fn candidates(prop: &str) -> Vec<Value> {
             }}}
         }
         "C11" => {
-            for g in ["G1", "G2"] { for s in schemes() { for kind in ["round_trip", "flip_v", "truncate_v", "extend_v", "tamper_u", "tamper_w", "relabel", "wrong_key"] {
+            for g in ["G1", "G2"] { for s in schemes() { for kind in ["round_trip", "flip_v", "truncate_v", "extend_v", "tamper_u", "tamper_w", "relabel", "wrong_key", "both_identity", "u_identity", "w_identity"] {
                 v.push(json!({"call": "signcrypt", "group": g, "scheme": scheme_name(s), "kind": kind}));
             }}}
         }
         "C13" => {
-            for g in ["G1", "G2"] { for s in schemes() { for kind in ["round_trip", "wrong_id", "wrong_key", "wrong_scheme", "identity_sig", "flip_u", "flip_v", "flip_w_prefix", "flip_padding", "extend_padding", "empty_w"] {
+            for g in ["G1", "G2"] { for s in schemes() { for kind in ["round_trip", "wrong_id", "wrong_key", "wrong_scheme", "identity_sig", "flip_u", "flip_v", "flip_w_prefix", "flip_w_prefix_all_bits", "flip_padding", "extend_padding", "empty_w"] {
                 v.push(json!({"call": "timelock", "group": g, "scheme": scheme_name(s), "kind": kind}));
             }}}
         }
@@ -107,7 +107,7 @@ pub fn candidates(prop: &str) -> Vec<Value> {
             }}}}
         }
         "C10" => {
-            for g in ["G1", "G2"] { for s in schemes() { for kind in ["complete", "other_challenge", "other_msg", "other_key", "tamper_u", "tamper_v", "ts_no_timeout", "ts_within", "ts_elapsed", "ts_altered", "ts_future", "ts_max"] {
+            for g in ["G1", "G2"] { for s in schemes() { for kind in ["complete", "other_challenge", "other_msg", "other_key", "tamper_u", "tamper_v", "ts_no_timeout", "ts_within", "ts_huge_timeout", "ts_elapsed", "ts_altered", "ts_future", "ts_max"] {
                 v.push(json!({"call": "pok", "group": g, "scheme": scheme_name(s), "kind": kind}));
             }}}
         }
@@ -228,6 +228,20 @@ fn identity_inputs<C: BlsSignatureImpl + PartialEq>(c: &Value, keys: &[SecretKey
         "zero_pop" => acc(zero.proof_of_possession().is_ok(), "proof of possession with the zero key"),
         "id_pop" => acc(ProofOfPossession::<C>(id_sig).verify(pk).is_ok(), "identity proof of possession"),
         "id_pop_pk" => acc(ProofOfPossession::<C>(id_sig).verify(PublicKey(id_pk)).is_ok(), "identity proof of possession for identity key"),
+        "pok_id_commitment" | "pok_id_response" | "pok_id_key" | "pok_zero_challenge" => {
+            // proofs of knowledge with an identity / zero component CRAFTED so that the pairing equation
+            // holds (u = O, v = -(y*sig), i.e. the prover secret x = 0): must be rejected by the guards
+            let y = ProofCommitmentChallenge::<C>::from_hash(b"witness challenge");
+            let sp = sig_pt(&sig);
+            let (u, v, yy, key) = match c["kind"].as_str().unwrap() {
+                "pok_id_commitment" => (id_sig, -(sp * y.0), y, pk),
+                "pok_id_response" => (id_sig, id_sig, y, PublicKey(id_pk)),
+                "pok_id_key" => (sp, -sp, y, PublicKey(id_pk)),
+                _ => (id_sig, id_sig, ProofCommitmentChallenge::<C>(<<C as Pairing>::PublicKey as Group>::Scalar::ZERO), pk),
+            };
+            let p = match s { SignatureSchemes::Basic => ProofOfKnowledge::<C>::Basic { u, v }, SignatureSchemes::MessageAugmentation => ProofOfKnowledge::MessageAugmentation { u, v }, _ => ProofOfKnowledge::ProofOfPossession { u, v } };
+            acc(p.verify(key, &m, yy).is_ok(), "proof of knowledge with an identity / zero component")
+        }
         "zero_from_bytes" => acc(SecretKey::<C>::try_from(&[0u8; 32][..]).is_ok() || bool::from(SecretKey::<C>::from_be_bytes(&[0u8; 32]).is_some()) || bool::from(SecretKey::<C>::from_le_bytes(&[0u8; 32]).is_some()), "zero key from bytes"),
         k if k.starts_with("agg_") || k == "multi_id_key" => {
             let sk2 = &keys[4];
@@ -357,6 +371,22 @@ fn multi<C: BlsSignatureImpl + PartialEq>(c: &Value, _keys: &[SecretKey<C>]) -> 
         "missing_signer" => if ms.verify(MultiPublicKey::<C>::from_public_keys(&pks[..n - 1]), &m).is_ok() { Some("accepted with a signer missing".into()) } else { None },
         "extra_signer" => { let mut p = pks.clone(); p.push(SecretKey::<C>::from_hash(b"extra").public_key()); if ms.verify(MultiPublicKey::<C>::from_public_keys(&p), &m).is_ok() { Some("accepted with a signer added".into()) } else { None } }
         "other_msg" => if ms.verify(mpk, b"other").is_ok() { Some("accepted for another message".into()) } else { None },
+        "repeated_signer" => {
+            // a signer listed twice contributes twice on BOTH sides: [k0, k1, k1] verifies against pk0 + 2*pk1
+            // and not against the key set without the repetition (and vice versa)
+            for pos in 0..n { for at in 0..=n {
+                let mut s2 = sigs.clone(); s2.insert(at, sigs[pos]);
+                let mut p2 = pks.clone(); p2.insert(at, pks[pos]);
+                let m2 = match MultiSignature::<C>::from_signatures(&s2) { Ok(x) => x, Err(e) => return Some(format!("accumulation with a repeated signer failed: {}", e)) };
+                let k2 = MultiPublicKey::<C>::from_public_keys(&p2);
+                let mut sum = <C as Pairing>::PublicKey::identity(); for p in &p2 { sum += p.0; }
+                if k2.0 != sum { return Some(format!("the accumulated key of a list with signer {} repeated is not the sum of the listed keys", pos)); }
+                if let Err(e) = m2.verify(k2, &m) { return Some(format!("multi-signature with signer {} listed twice is rejected against the key set of exactly those signers: {}", pos, e)); }
+                if m2.verify(mpk, &m).is_ok() { return Some("multi-signature with a repeated signer accepted for the key set without the repetition".into()); }
+                if ms.verify(k2, &m).is_ok() { return Some("multi-signature accepted for a key set with a signer added (repeated)".into()); }
+            }}
+            None
+        }
         _ => None,
     }
 }
@@ -372,6 +402,7 @@ fn pok<C: BlsSignatureImpl + PartialEq + Copy>(c: &Value, keys: &[SecretKey<C>])
         let p = match ProofOfKnowledgeTimestamp::<C>::generate(&m, sig) { Ok(p) => p, Err(e) => return Some(format!("generate failed: {}", e)) };
         return match kind {
             "ts_no_timeout" => if let Err(e) = p.verify(pk, &m, None) { Some(format!("timestamp proof rejected without timeout: {}", e)) } else { None },
+            "ts_huge_timeout" => { for tt in [u64::MAX, u64::MAX - 1, u64::MAX - 1_000_000, u64::MAX / 2, 1u64 << 63] { if let Err(e) = p.verify(pk, &m, Some(tt)) { return Some(format!("fresh timestamp proof rejected within the timeout {}: {}", tt, e)); } } None }
             "ts_within" => if let Err(e) = p.verify(pk, &m, Some(60_000)) { Some(format!("timestamp proof rejected within the timeout: {}", e)) } else { None },
             "ts_elapsed" => { std::thread::sleep(std::time::Duration::from_millis(30)); if p.verify(pk, &m, Some(5)).is_ok() { Some("accepted after the timeout elapsed".into()) } else { None } }
             "ts_altered" => { let mut q = p; q.timestamp -= 10; if q.verify(pk, &m, None).is_ok() { Some("altered timestamp accepted".into()) } else { None } }
@@ -476,6 +507,19 @@ fn signcrypt<C: BlsSignatureImpl + PartialEq + Copy>(c: &Value, keys: &[SecretKe
         "tamper_w" => { t.w = t.w + gs; }
         "relabel" => { for s2 in schemes() { if s2 != s { let mut x = ct.clone(); x.scheme = s2; if bool::from(x.is_valid()) || bool::from(x.decrypt(sk).is_some()) { return Some(format!("relabelled as {} still valid", scheme_name(s2))); } } } return None; }
         "wrong_key" => { return match Option::<Vec<u8>>::from(ct.decrypt(&keys[4])) { Some(p) if p == m => Some("another secret key recovered the message".into()), _ => None }; }
+        "both_identity" | "u_identity" | "w_identity" => {
+            // identity points in U and/or W (with the honest V and with a forged V under the public identity-point keystream)
+            let idp = <C as Pairing>::PublicKey::identity(); let ids = <C as Pairing>::Signature::identity();
+            let mut forged = b"\x10pay mallory 1000".to_vec(); forged.resize(32, 0);
+            for v in [ct.v.clone(), <C as BlsSignCrypt>::compute_v(idp, forged.as_slice())] {
+                let mut x = ct.clone(); x.v = v;
+                if kind != "w_identity" { x.u = idp; }
+                if kind != "u_identity" { x.w = ids; }
+                if bool::from(x.is_valid()) { return Some(format!("{}: a ciphertext with identity point(s) reports valid", kind)); }
+                if bool::from(x.decrypt(sk).is_some()) || bool::from(sk.sign_decryption_key::<Vec<u8>>(&x).decrypt(&x).is_some()) { return Some(format!("{}: a ciphertext with identity point(s) decrypts to something", kind)); }
+            }
+            return None;
+        }
         _ => { t.v = vec![]; let _ = t.decrypt(sk); let _ = t.is_valid(); return None; }
     }
     if bool::from(t.is_valid()) || bool::from(t.decrypt(sk).is_some()) { Some(format!("{}: altered ciphertext still valid/decrypts", kind)) } else { None }
@@ -508,6 +552,20 @@ fn timelock<C: BlsSignatureImpl + PartialEq + Copy>(c: &Value, keys: &[SecretKey
         "identity_sig" => if opens_to(&ct, &mk::<C>(s, <C as Pairing>::Signature::identity())).is_some() { Some("identity signature opens it".into()) } else { None },
         "flip_u" => { let mut t = ct.clone(); t.u = t.u + gp; if opens_to(&t, &sig).is_some() { Some("altered U still opens".into()) } else { None } }
         "flip_v" => { for i in 0..32 { let mut t = ct.clone(); t.v[i] ^= 1; if opens_to(&t, &sig).is_some() { return Some(format!("bit flip in v[{}] still opens", i)); } } None }
+        "flip_w_prefix_all_bits" => {
+            // every single-bit flip in the bytes of w that cover the length prefix (and the first message
+            // bytes) must yield NOTHING — for one- and two-byte prefixes, ordinary and all-zero messages
+            let mut found: Vec<String> = vec![];
+            for l in [0usize, 1, 2, 30, 31, 33, 127, 128, 129, 130, 200] { for fill in [0u8, 0x5a] {
+                let mm: Vec<u8> = (0..l).map(|i| if fill == 0 { 0 } else { (i * 7 + 1) as u8 | 1 }).collect();
+                let c2 = pk.encrypt_time_lock(s, &mm, &id).ok()?;
+                let plen = if l < 128 { 1 } else { 2 };
+                let covered = (plen + l).min(plen + 2).min(c2.w.len());
+                for i in 0..covered { for b in 0..8 { let mut t = c2.clone(); t.w[i] ^= 1 << b;
+                    if let Some(p) = opens_to(&t, &sig) { found.push(format!("bit {} of w[{}] flipped (message of {} bytes {:#x}..): opens to {}", b, i, l, fill, if p == mm { "the ORIGINAL message instead of nothing" } else { "a DIFFERENT message" })); } } }
+            }}
+            if found.is_empty() { None } else { found.truncate(6); Some(found.join("; ")) }
+        }
         "flip_w_prefix" => { for i in 0..(1 + m.len()) { let mut t = ct.clone(); t.w[i] ^= 0x10; if let Some(p) = opens_to(&t, &sig) { return Some(format!("bit flip in w[{}] (length prefix / message) opens to {:?}", i, p)); } } None }
         "flip_padding" => { let mut t = ct.clone(); let n = t.w.len(); t.w[n - 1] ^= 1; match opens_to(&t, &sig) { Some(p) if p != m => Some("padding flip yields a DIFFERENT message".into()), _ => None } }
         "extend_padding" => { let mut t = ct.clone(); t.w.push(7); match opens_to(&t, &sig) { Some(p) if p != m => Some("extension yields a DIFFERENT message".into()), _ => None } }
